@@ -20,6 +20,22 @@ THEOREMS = [
     "Cv.export_complete",
     "Cv.export_partial",
     "Cv.export_needs_store",
+    "Cv.C08e.encoded_edgeGen_spec",
+    "Cv.C08e.plain_edgeGen_spec",
+    "Cv.C08e.encoded_export_complete",
+    "Cv.C08e.encoded_export_adjacency_symm",
+    "Cv.C08e.encoded_export_partial",
+    "Cv.C08e.encoded_export_partial_exact",
+    "Cv.C08e.encoded_export_needs_store",
+    "Cv.C08e.plain_export_complete",
+    "Cv.C08e.plain_export_adjacency_symm",
+    "Cv.C08e.plain_export_partial",
+    "Cv.C08e.plain_export_partial_exact",
+    "Cv.C08e.plain_export_needs_store",
+    "Cv.C08e.single_word_export_complete",
+    "Cv.C08e.single_word_export_partial",
+    "Cv.C08e.single_word_export_partial_exact",
+    "Cv.C08e.single_word_export_needs_store",
 ]
 
 
@@ -237,7 +253,7 @@ def main():
         body = json.load(open(os.path.join(VERIF, ck.replay) if not os.path.isabs(ck.replay) else ck.replay))
         ck.guard(run_case, ck, body["case"])
         ck.finish(rule="replay of one recorded case")
-    ck.lean_obligations("CvProps.C08", THEOREMS)
+    ck.lean_obligations(["CvProps.C08", "CvProps.C08e"], THEOREMS)
     for case in json.load(open(os.path.join(VERIF, "harness", "corpus", "C08.json"))):
         ck.guard(run_case, ck, case)
         ck.count("corpus")
